@@ -167,7 +167,14 @@ def _gen_checkblock(rng, chain=None):
     txs = [_mk_tx(rng, witness=wit and rng.random() < 0.7) for _ in range(n)]
     kind = rng.choice(['none', 'none', 'none', 'empty', 'nocb', 'cb2', 'duptx', 'badtx', 'badcb', 'sig20000', 'sig20001',
                        'sigmal', 'root', 'nocommit', 'badcommit', 'misplaced', 'longcommit', 'nononce', 'badnonce',
-                       'time_ok', 'time_bad', 'big', 'cbwit_only', 'wit_no_cbwit'])
+                       'time_ok', 'time_bad', 'big', 'cbwit_only', 'wit_no_cbwit', 'wittwin'])
+    if kind == 'wittwin' and txs:
+        # two transactions that differ in their witness only: same txid, different witness hash - a duplicate under
+        # the txid-uniqueness rule although every witness-covering hash (wtxid, commitment) tells them apart
+        k = rng.randrange(len(txs))
+        m = CMutableTransaction.from_tx(txs[k])
+        m.wit = CTxWitness([CTxInWitness(CScriptWitness([_rb(rng, rng.choice([1, 33])), b'twin'])) for _ in m.vin])
+        txs.append(CTransaction.from_tx(m))
     has_wit = any(len(w.scriptWitness.stack) for t in txs for w in t.wit.vtxinwit)
     nonce = _rb(rng, 32)
     cbm = CMutableTransaction.from_tx(_mk_tx(rng, coinbase=True))
